@@ -279,6 +279,10 @@ func (s *ServantProxy) doInvoke(ctx context.Context, msg *Message, timeout time.
 		if msg.Resp != nil {
 			if msg.Status != basef.TARSSERVERSUCCESS || msg.Resp.IRet != 0 {
 				if msg.Resp.SResultDesc == "" {
+					if msg.Resp.IRet != 0 && msg.Resp.IRet != 1 {
+						// an error without a description still has its code
+						return &Error{Code: msg.Resp.IRet, Message: fmt.Sprintf("basef error code %d", msg.Resp.IRet)}
+					}
 					return fmt.Errorf("basef error code %d", msg.Resp.IRet)
 				}
 				if msg.Resp.IRet != 0 && msg.Resp.IRet != 1 {
